@@ -229,6 +229,27 @@ CHECKS['C11'] = dict(
          '(documented fresh UUID).',
     design='5 (C11), 3.2 (H-frontend)')
 
+CHECKS['C18'] = dict(
+    engine='h-frontend',
+    technique='Lean 4 proof (conversion of every abstract barectf 2 field type to its barectf 3 spelling, enumeration '
+              'auto-increment and label grouping, prefix splitting) over a transcription of config_parse_v2 + differential '
+              'runs of the real barectf 2 parser against it + the two-dialect oracle on the implementation',
+    text='Props/C18.lean: field_type_conversion (integers with every optional property, enumerations, reals, strings, '
+         'static/dynamic arrays, structures, nested to any depth: convFt (r2 a) = r3 a), enum_mappings / enum_conversion / '
+         'enum_implicit_* (values of a label in member order; implicit value = 0 or previous last value + 1), '
+         'v2_prefix_split, v2_file_prefix_no_trailing_underscore. Partial: the stream/metadata level of the conversion '
+         '(feature and default clock inference, $default-stream, options) is covered by correspondence and oracle only. '
+         'Every run: Lean vs harness renderings of abstract field types; the node the real barectf 2 parser hands over vs '
+         'Lean convert2 and the real effective document vs expand2 on generated barectf 2 documents (plain and with '
+         'aliases, inheritance, inclusions); on the implementation: files generated from the barectf 2 document and from '
+         'the independently rendered barectf 3 document of the same abstract configuration are byte-identical, versions '
+         '2/3 are reported by the API and the CLI.',
+    note='Trusted: Lean kernel/standard axioms; PyYAML; the harness renderers (render3 is the definition of "equivalent"). '
+         'F17 (packet_seq_num dropped) found by this oracle and repaired in /repo. Observations recorded in DESIGN.md: '
+         'stream_instance_id is accepted and dropped (no barectf 3 equivalent exists); uuid element alignment 1/2/4 is '
+         'accepted by the barectf 2 schema and rejected after conversion.',
+    design='5 (C18), 3.2 (H-frontend)')
+
 NOT_APPLICABLE = {
 }
 
